@@ -85,7 +85,7 @@ def run(ctx):
         return
     from gffutils import convert
     from gffutils.feature import Feature
-    models = [I.random_model(ctx.rng) for _ in range(3000 if thorough else 400)]
+    models = [I.random_model(ctx.rng) for _ in range(3000 if thorough else 1000)]
     exp = I.oracle(ctx, models)
     fa = ctx.path("ref.fa")
     for k, (m, e) in enumerate(zip(models, exp)):
